@@ -48,7 +48,7 @@ MIN_REACH = {
     "crops_whose_function_is_not_saved": {"quick": 12, "thorough": 300},
     "crops_of_ten_and_more_batches": {"quick": 15, "thorough": 300},
     "subsets_grown_from_a_generator_or_an_array_of_ids": {"quick": 30, "thorough": 800},
-    "empty_subsets_grown": {"quick": 15, "thorough": 400},
+    "empty_subsets_grown": {"quick": 15, "thorough": 200},
     "pooled_grows_around_a_resow_that_replaced_the_function": {"quick": 12, "thorough": 200},
 }
 TIME_BUDGET = {"quick": 300, "thorough": 3000}
